@@ -66,6 +66,13 @@ PROCESS rather than in the program/VM they name — float arithmetic raising eac
 directive / identifier / number / operator / char literal; bad_mod_trunc* = the same inside a used module) — each followed
 by observers (math built-ins and printing of fpb on the old and on a new VM, compiles of sources with string literals,
 comments, `use`), judged by oracles (1), (2), (2b).
+Kind `reprepare`: the same entries of argsprog (int, float, string parameters, a string array) prepared again and again with
+DIFFERENT argument vectors — through nev_prepare_argc_argv (`<entry>@argv`, a new host-owned argv each time) or by storing
+into prog->params[] — each followed by executes on one or two VMs; oracle (2b).  Kind `failfirst`: the FIRST call of a VM
+fails inside an entry of toplets after the top-level bindings were built (division by zero, assert, index), then calls
+that fill a small heap beyond the collection threshold and read the bindings.  A call that ends in libnev's exit(1)
+"out of memory" is heap capacity (garbage of earlier calls is only collected at the collector's own safe points): counted
+(heap_exhausted), not judged.
 Violation keys (stable): execute:sp-leak-per-call, execute:sp-leak-after-error, execute:after-failed-global-init,
 execute:reinitialises-globals, execute:relative-stack-use-grows, execute:peak-exceeds-first-call,
 execute:differs-from-fresh-vm-replay:{result,output,diagnostic}, execute:pure-call-differs-from-first-call:*,
@@ -196,6 +203,21 @@ def resolvable(src, npath):
     return all(d in search_dirs(npath) for d in REQUIRES.get(src, []))
 
 
+VALID.update({
+    # --- entries of every parameter kind (int, float, string, string array), prepared through nev_prepare_argc_argv
+    #     (`<entry>@argv`) or by storing into prog->params[] after nev_prepare; no global effects
+    "argsprog": {"entries": {"main@argv": [(), (S("a"),), (S("bb"), S("c")), (S("x"), S("yy"), S("zzz"), S("wwww")), (S("hello world"),),
+                                           (S("p"), S("q"), S("r"))],
+                             "joinlen@argv": [(S("ab"), S("c"), "i:3"), (S(""), S("xyz"), "i:2"), (S("longer text"), S("z"), "i:-1")],
+                             "joinlen": [(S("ab"), S("c"), "i:3"), (S("q"), S(""), "i:5")],
+                             "scale@argv": [("f:1.5", "i:2"), ("f:-0.25", "i:0")], "scale": [("f:1.5", "i:2"), ("f:8.0", "i:1")],
+                             "one@argv": [(S("single"),), (S(""),)], "one": [(S("single"),), (S("another one"),)]},
+                 "pure": True, "state": None},
+    # --- top-level bindings read by every entry; entries that fail AFTER the bindings were built (first call of a VM)
+    "toplets": {"entries": {"main": [()], "read": [()], "work": [("i:288", "i:4"), ("i:576", "i:4"), ("i:720", "i:5"), ("i:10", "i:2")],
+                            "boom": [("i:0",), ("i:5",)], "chk": [("i:0",), ("i:3",)], "oob": [("i:7",), ("i:1",)]},
+                "pure": True, "state": None},
+})
 FP_COMPILE_TIME = ["fpc_under", "fpc_over", "fpc_invalid", "fpc_inexact", "fpc_dunder"]
 INVALID = ["bad_lex", "bad_unterminated_string", "bad_unterminated_comment", "bad_syntax", "bad_types",
            "bad_constdiv2", "bad_missing_module", "bad_late_error", "bad_empty", "bad_in_module", "bad_eof",
@@ -620,6 +642,40 @@ def gen_history(rng, kind):
                 do_compile(valid_p=0.3)
             else:
                 do_call(h=0, v=rng.choice([0, 1]))
+    elif kind == "reprepare":
+        # the SAME entries prepared several times with DIFFERENT argument vectors, each followed by executes
+        emit(["compile", 0, rng.choice(["str", "file"]), "argsprog"])
+        emit(["vm_new", 0, 5000, 300])
+        if rng.random() < 0.5:
+            emit(["vm_new", 1, 5000, 300])
+        ents = VALID["argsprog"]["entries"]
+        focus = rng.choice(["main@argv", "main@argv", "joinlen@argv", None])
+        for _ in range(rng.randint(3, 9)):
+            e = focus if focus and rng.random() < 0.75 else rng.choice(sorted(ents))
+            emit(["prepare", 0, e, list(rng.choice(ents[e]))])
+            for _ in range(rng.choice([1, 1, 2])):
+                emit(["execute", 0, rng.choice(sorted(s.vm))])
+    elif kind == "failfirst":
+        # the FIRST call of a VM fails inside an entry, after the top-level bindings were built; later calls on the same VM
+        # allocate enough to make a small heap collect, then read the bindings
+        mem = rng.choice([1200, 1600, 2000, 3000])
+        big = int(mem * 0.8) - 120          # 140 library cells + big > 80% of the heap: the slide after the first array collects
+        emit(["compile", 0, "str", "toplets"])
+        emit(["vm_new", 0, mem, rng.choice([200, 300])])
+        fail = rng.choice([("boom", ["i:0"]), ("chk", ["i:0"]), ("oob", ["i:7"]), ("work", ["i:%d" % big, "i:0"])])
+        emit(["prepare", 0, fail[0], fail[1]])
+        emit(["execute", 0, 0])
+        if rng.random() < 0.3:
+            emit(["execute", 0, 0])                 # fails again
+        for _ in range(rng.randint(1, 4)):
+            r = rng.random()
+            if r < 0.6:
+                emit(["prepare", 0, "work", ["i:%d" % (big - rng.choice([0, 0, 7, 40])), "i:%d" % rng.choice([4, 5, 10])]])
+            elif r < 0.8:
+                emit(["prepare", 0, "read", []])
+            else:
+                emit(["prepare", 0, fail[0], fail[1]])
+            emit(["execute", 0, 0])
     elif kind == "residue":
         # several operations that leave process-global state behind, each followed by observers
         emit(["compile", 0, rng.choice(["str", "file"]), "fpb"])
@@ -1534,6 +1590,14 @@ def evaluate(env, hist, want=None):
                                      "call #%d on VM %d (%s %s) with global state %s gave %s; a fresh VM primed with set(%s) gives %s" % (
                                          n + 1, v, entry, " ".join(args), state, exec_obs(b), state, exec_obs(solo)), at_op=b.idx))
             prevb = (b, src, entry)
+        # ---- a call that ends in libnev's exit(1) "out of memory": the heap (garbage of earlier calls included: the collector
+        #      runs at its own safe points, not on exhaustion) was too small for this call sequence.  Heap capacity is not part
+        #      of the API model; counted, the VM's trajectory is compared up to that call only
+        oom = next((n for n, c4 in enumerate(calls) if c4[0].exit and "out of memory" in c4[0].err), None)
+        if oom is not None:
+            stats["heap_exhausted"] = stats.get("heap_exhausted", 0) + 1
+            calls = calls[:oom]
+            died = False
         # ---- model correspondence: the extracted Api model predicts the sp trajectory
         mf, used, skipped, expl = model_check(env, v, stack, calls, src, npath)
         stats["model_calls"] += used
@@ -1922,8 +1986,8 @@ def run(ctx):
 
     # ---- histories ---------------------------------------------------------------------------
     quick = ctx.tier == "quick"
-    plan = ([("mixed", 90), ("compile", 50), ("twovm", 30), ("repeat", 16), ("residue", 40)] if quick else
-            [("mixed", 5000), ("compile", 2500), ("twovm", 1800), ("repeat", 500), ("residue", 2500)])
+    plan = ([("mixed", 90), ("compile", 50), ("twovm", 30), ("repeat", 16), ("residue", 40), ("reprepare", 30), ("failfirst", 30)] if quick else
+            [("mixed", 5000), ("compile", 2500), ("twovm", 1800), ("repeat", 500), ("residue", 2500), ("reprepare", 1500), ("failfirst", 1500)])
     jobs = []
     n = 0
     # corpus first
@@ -1993,7 +2057,7 @@ def run(ctx):
     results.sort(key=lambda x: x[0])
 
     tot = {"histories": 0, "ops": 0, "compiles": 0, "executes": 0, "nontrivial": 0, "model_calls": 0,
-           "model_skipped": 0, "primed": 0, "replayed_vms": 0, "refused": 0, "referenced": 0, "crash_same_as_alone": 0}
+           "model_skipped": 0, "primed": 0, "replayed_vms": 0, "refused": 0, "referenced": 0, "crash_same_as_alone": 0, "heap_exhausted": 0}
     classes, kinds, distinct = {}, {}, set()
     first = {}      # key -> (hist, finding)
     for idx, kind, hist, F, st in results:
